@@ -1466,7 +1466,9 @@ class _minmax(object):
                     else:
                         cnst = _vecmin(cnst,f)
 
-                elif type(f) is variable or type(f) is _function:
+                elif type(f) is variable or (type(f) is _function and 
+                    ((f._isconvex() and self._ismax) or 
+                    (f._isconcave() and not self._ismax))):
                     self._flist += [+f]
 
                 else:
@@ -1648,6 +1650,7 @@ def max(*s):
         except: 
             # maybe s[0] is a list or tuple of variables, functions
             # and constants
+            if len(s) != 1: raise NotImplementedError
             try: return max(*s[0])
             except: raise NotImplementedError
 
@@ -1687,6 +1690,7 @@ def min(*s):
         except:
             # maybe s[0] is a list or tuple of variables, functions
             # and constants
+            if len(s) != 1: raise NotImplementedError
             try: return min(*s[0])
             except: raise NotImplementedError
 
